@@ -10,7 +10,8 @@
    C12_condense_split); what remains assumed of the model is H_rules_local alone. *)
 Require Import Base Overlap Tables_lexer Lexer Condense TokenInv CondenseInv ParaSplit ParaSplitProofs C12Doc LexSplitProofs LongSentencesSeam
   C12CondSpaces C12CondSuffix C12CondPattern C12CondPatterns3 C12CondInit C12CondQuotes C12LexEnds C12CondSplit
-  Tables_c12rules C12RuleShapes C12Merge C12MergeProofs C12Windows C12WindowsProofs C12Main.
+  Tables_c12rules C12RuleShapes C12Merge C12MergeProofs C12Windows C12WindowsProofs C12Main
+  C12Comma C12CommaProofs C12CommaMain C12CommaTotal.
 From Coq Require Import Sorting.Permutation.
 Import Coq.Strings.String.StringSyntax. (* string literals only *)
 Delimit Scope string_scope with string.
@@ -540,6 +541,92 @@ Check C12_main_final : forall u,
                  ++ map (shift_lint (length P)) (lints (doc_tokens u) chunk_fn (curated_rules g0 other) D)).
 Print Assumptions C12_main_final.
 
+(* ---------- phase 6: CommaFixes, the last struct rule outside every proved shape ---------- *)
+(* Model/C12Comma.comma_fixes = linting/comma_fixes.rs: for every comma token, its four OPTIONAL neighbours
+   get_token(ci - 2 .. ci + 2) enter a 10-arm match only through their VIEW (Word / Space / Unlintable / anything else or
+   absent); the arm table cf_arms is decoded from Tables_c12rules.comma_arms_raw, which tools/tables/c12rules.py reads from
+   the source on every run.  Three facts about the table, recomputed over all views on every run: no arm looks at
+   toks.4 unless toks.3 is a Space, none at toks.0 unless toks.1 is a Space, and an arm whose span mentions toks.1
+   requires toks.1 to be a Space. *)
+Theorem C12_comma_arms_facts : (forall v0 v1 c v3 v4 v4', v3 <> VSpace -> run_arms cf_arms v0 v1 c v3 v4 = run_arms cf_arms v0 v1 c v3 v4') /\
+  (forall v0 v0' v1 c v3 v4, v1 <> VSpace -> run_arms cf_arms v0 v1 c v3 v4 = run_arms cf_arms v0' v1 c v3 v4) /\
+  (forall v0 v1 c v3 v4 w id, v1 <> VSpace -> run_arms cf_arms v0 v1 c v3 v4 = Some (w, id) -> w = SComma).
+Proof. exact (conj arms_v4_irrel (conj arms_v0_irrel arms_span_comma)). Qed.
+Check C12_comma_arms_facts : (forall v0 v1 c v3 v4 v4', v3 <> VSpace -> run_arms cf_arms v0 v1 c v3 v4 = run_arms cf_arms v0 v1 c v3 v4') /\
+  (forall v0 v0' v1 c v3 v4, v1 <> VSpace -> run_arms cf_arms v0 v1 c v3 v4 = run_arms cf_arms v0' v1 c v3 v4) /\
+  (forall v0 v1 c v3 v4 w id, v1 <> VSpace -> run_arms cf_arms v0 v1 c v3 v4 = Some (w, id) -> w = SComma).
+Print Assumptions C12_comma_arms_facts.
+
+(* CommaFixes is paragraph-local, for every Unlintable test that moving a token does not change (ParaSplit.kind keeps
+   Unlintable inside KOther; the test is a parameter of the model).  Reason: an absent neighbour, a ParagraphBreak
+   neighbour and whatever lies behind a ParagraphBreak all look alike to the arms. *)
+Theorem C12_comma_fixes_local : forall unl : ParaSplit.tok -> bool,
+  (forall n k t, unl (shift_tok n k t) = unl t) -> para_local (comma_fixes unl).
+Proof. exact comma_fixes_local. Qed.
+Check C12_comma_fixes_local : forall unl : ParaSplit.tok -> bool,
+  (forall n k t, unl (shift_tok n k t) = unl t) -> para_local (comma_fixes unl).
+Print Assumptions C12_comma_fixes_local.
+
+(* the loop written with token indices and get_token, as in the source, is the structural loop the proof uses *)
+Theorem C12_comma_fixes_idx_eq : forall unl ts src, comma_fixes_idx unl ts src = comma_fixes unl ts src.
+Proof. exact comma_fixes_idx_eq. Qed.
+Check C12_comma_fixes_idx_eq : forall unl ts src, comma_fixes_idx unl ts src = comma_fixes unl ts src.
+Print Assumptions C12_comma_fixes_idx_eq.
+
+(* the table side (recomputed on every run): the arms, the row, and that the CommaFixes row of the rule list below IS the
+   modelled body — the only row C12Main.curated_rules takes from `other` *)
+Theorem C12_comma_pinned : forall (unl : ParaSplit.tok -> bool) (g0 : String.string -> body),
+  cf_arms = cf_arms_expected /\
+  option_map row_shape (row_of "CommaFixes") = Some (Neighbourhood 2 2) /\
+  residue = ["CommaFixes"%string] /\
+  length (curated_rules_all unl g0) = 74 /\
+  option_map row_name (nth_error struct_rules (row_index "CommaFixes" struct_rules)) = Some "CommaFixes"%string /\
+  nth_error (curated_rules_all unl g0) (row_index "CommaFixes" struct_rules) = Some (comma_fixes unl).
+Proof. exact comma_pinned. Qed.
+Check C12_comma_pinned : forall (unl : ParaSplit.tok -> bool) (g0 : String.string -> body),
+  cf_arms = cf_arms_expected /\
+  option_map row_shape (row_of "CommaFixes") = Some (Neighbourhood 2 2) /\
+  residue = ["CommaFixes"%string] /\
+  length (curated_rules_all unl g0) = 74 /\
+  option_map row_name (nth_error struct_rules (row_index "CommaFixes" struct_rules)) = Some "CommaFixes"%string /\
+  nth_error (curated_rules_all unl g0) (row_index "CommaFixes" struct_rules) = Some (comma_fixes unl).
+Print Assumptions C12_comma_pinned.
+
+(* CommaFixes::lint never panics when every comma token covers at least one character of the source and adjacent tokens
+   are in order: with get_content / .first().unwrap() / toks.1.unwrap() / Span::new as checked operations the loop
+   returns what the unchecked model (the one proved local) computes *)
+Theorem C12_comma_fixes_total : forall (unl : ParaSplit.tok -> bool) ts src,
+  Forall (comma_ok src) ts -> ordered None ts -> comma_fixes_chk unl ts src = Ok (comma_fixes unl ts src).
+Proof. exact comma_fixes_total. Qed.
+Check C12_comma_fixes_total : forall (unl : ParaSplit.tok -> bool) ts src,
+  Forall (comma_ok src) ts -> ordered None ts -> comma_fixes_chk unl ts src = Ok (comma_fixes unl ts src).
+Print Assumptions C12_comma_fixes_total.
+
+(* THE PROPERTY with NO locality hypothesis on any struct rule: all 74 rows of the generated table denote either an
+   instance of a proved shape (arbitrary per-slice bodies), UnclosedQuotes' / CommaFixes' modelled body.  What is left:
+   lints-inside-the-slice of the ten bodies under remove_overlaps, four facts about U+000A, and that the Unlintable test
+   does not depend on where a token stands. *)
+Theorem C12_main_complete : forall u,
+  u_whitespace u NL = true -> u_numeric u NL = false -> u_alphabetic u NL = false -> u_lingual u NL = false ->
+  forall (unl : ParaSplit.tok -> bool), (forall n k t, unl (shift_tok n k t) = unl t) ->
+  forall chunk_fn (g0 : String.string -> body),
+  (forall b, In b ro_bodies_expected -> g0_inside (g0 b)) ->
+  forall P D, c12_premise P -> no_leading_nl D ->
+    Permutation (lints (doc_tokens u) chunk_fn (curated_rules_all unl g0) (P ++ D))
+                (lints (doc_tokens u) chunk_fn (curated_rules_all unl g0) P
+                 ++ map (shift_lint (length P)) (lints (doc_tokens u) chunk_fn (curated_rules_all unl g0) D)).
+Proof. exact main_complete. Qed.
+Check C12_main_complete : forall u,
+  u_whitespace u NL = true -> u_numeric u NL = false -> u_alphabetic u NL = false -> u_lingual u NL = false ->
+  forall (unl : ParaSplit.tok -> bool), (forall n k t, unl (shift_tok n k t) = unl t) ->
+  forall chunk_fn (g0 : String.string -> body),
+  (forall b, In b ro_bodies_expected -> g0_inside (g0 b)) ->
+  forall P D, c12_premise P -> no_leading_nl D ->
+    Permutation (lints (doc_tokens u) chunk_fn (curated_rules_all unl g0) (P ++ D))
+                (lints (doc_tokens u) chunk_fn (curated_rules_all unl g0) P
+                 ++ map (shift_lint (length P)) (lints (doc_tokens u) chunk_fn (curated_rules_all unl g0) D)).
+Print Assumptions C12_main_complete.
+
 (* ---------- non-vacuity ---------- *)
 
 (* ---------- one rule body: LongSentences as repaired by 1bab09f (finding FC12a) ---------- *)
@@ -749,3 +836,30 @@ Example C12_unclosed_quotes_needs_premise :
 Proof.
   cbv zeta. split; [intros H; inversion H; discriminate|]. repeat split; vm_compute; reflexivity.
 Qed.
+
+(* non-vacuity of C12_comma_fixes_local: `a ,b.` BREAK | `,c 、 d` — one finding per side (1..3 space before + none after;
+   2..4 space before an Asian comma), none for the comma that opens the second part, neither alone (toks.1 absent) nor
+   glued (toks.1 is the ParagraphBreak); glued = separately + shifted.  And the Unlintable parameter matters: a KOther
+   neighbour silences an Asian comma exactly when the test says Unlintable. *)
+Example C12_comma_fixes_nonvacuous :
+  let out := map (fun l => (lstart l, lend l, lid l)) in
+  (forall n k t, cx_unl (shift_tok n k t) = cx_unl t) /\
+  out (comma_fixes cx_unl cx_A cx_P) = [(1, 3, 21)] /\ out (comma_fixes cx_unl cx_B cx_D) = [(2, 4, 11)] /\
+  out (comma_fixes cx_unl (cx_A ++ map (shift_tok 7 6) cx_B) (cx_P ++ cx_D)) = [(1, 3, 21); (9, 11, 11)] /\
+  out (comma_fixes cx_unl [ParaSplit.mktok (mkspan 0 1) ParaSplit.KOther; ParaSplit.mktok (mkspan 1 2) KComma] [33457; 12289]%N) = [] /\
+  out (comma_fixes (fun _ => false) [ParaSplit.mktok (mkspan 0 1) ParaSplit.KOther; ParaSplit.mktok (mkspan 1 2) KComma] [33457; 12289]%N) = [(1, 2, 10)].
+Proof. exact comma_example. Qed.
+
+(* both premises of C12_comma_fixes_total are needed (a zero-width comma token: .first().unwrap() on an empty slice; a
+   Space lying behind the comma: Span::new), and they are satisfiable with a finding *)
+Example C12_comma_total_needs_premises :
+  comma_fixes_chk (fun _ => false) [ParaSplit.mktok (mkspan 1 1) KComma] [97; 44]%N = Panic PUnwrap /\
+  comma_fixes_chk (fun _ => false)
+    [ParaSplit.mktok (mkspan 0 1) ParaSplit.KWord; ParaSplit.mktok (mkspan 3 4) ParaSplit.KSpace;
+     ParaSplit.mktok (mkspan 1 2) KComma; ParaSplit.mktok (mkspan 2 3) ParaSplit.KWord] [97; 44; 98; 32]%N
+  = Panic PSpanOrder /\
+  comma_fixes_chk (fun _ => false)
+    [ParaSplit.mktok (mkspan 0 1) ParaSplit.KWord; ParaSplit.mktok (mkspan 1 2) ParaSplit.KSpace;
+     ParaSplit.mktok (mkspan 2 3) KComma; ParaSplit.mktok (mkspan 3 4) ParaSplit.KWord] [97; 32; 44; 98]%N
+  = Ok [mklint (mkspan 1 3) 21].
+Proof. exact comma_total_needs. Qed.
